@@ -685,6 +685,19 @@ fn part2_border(ctx: &Arc<Ctx>) {
 				if first != want {
 					ctx.violation("border box iter_coords order disagrees", &format!("{r:?}: {first:?} vs {want:?}"), case.clone());
 				}
+				// the consuming enumeration: the same first coordinates, and the element behind one full row is the first of
+				// the second row (lazily: the boxes here hold up to 2^62 tiles)
+				let first2: Vec<(u32, u32)> = b.clone().into_iter_coords().take(3).map(|c| (c.x, c.y)).collect();
+				if first2 != want {
+					ctx.violation("border box into_iter_coords order disagrees", &format!("{r:?}: {first2:?} vs {want:?}"), case.clone());
+				}
+				if w <= 70_000 && h >= 2 {
+					for (name, got) in [("iter_coords", b.iter_coords().nth(w as usize).map(|c| (c.x, c.y))), ("into_iter_coords", b.clone().into_iter_coords().nth(w as usize).map(|c| (c.x, c.y)))] {
+						if got != Some((r.1, r.2 + 1)) {
+							ctx.violation(&format!("border box {name}: element behind the first row disagrees"), &format!("{r:?}: element {w} is {got:?}, row-major enumeration has ({}, {})", r.1, r.2 + 1), case.clone());
+						}
+					}
+				}
 				// flip / swap
 				let mut f = b.clone();
 				f.flip_y();
